@@ -1,7 +1,8 @@
 #!/bin/bash
 # usage: docs/C10.mutants.sh <mutant>... ; applies each hand-made mutant of spec_classes/methods/core.py in a scratch
 # worktree (/tmp/wt-c10, removed afterwards) and runs `bin/check C10 quick` against it.  Mutants: early_true
-# compare_false_counts missing_eq_none repr_skips_last repr_order subclass_equal old_eq old_deepcopy old_repr (code 2
+# compare_false_counts missing_eq_none repr_skips_last repr_order subclass_equal probe_spec_class_objects old_eq
+# old_deepcopy old_repr (code 2
 # expected) and type_is deep_marker (model drift, no-failing-input-found, expected).
 set -u
 WT=/tmp/wt-c10
@@ -41,6 +42,21 @@ elif name == "repr_order":
     rep("            if attr_spec.repr\n        )", "            if attr_spec.repr\n        )[::-1]")
 elif name == "deep_marker":
     rep('                    return "[...]" if isinstance(obj, MutableSequence) else "{...}"', '                    return "<self>"')
+elif name == "probe_spec_class_objects":
+    # (seeded/C10-2) object_repr probes `__spec_class__` instead of try/except TypeError:
+    # a spec CLASS OBJECT held by an attribute passes the probe and Cls.__repr__(indent=..) raises
+    rep("""            if hasattr(obj, "__repr__"):
+                try:
+                    return obj.__repr__(  # pylint: disable=unnecessary-dunder-call
+                        indent=indent, compact=compact_children
+                    )
+                except TypeError:
+                    pass
+""", """            if getattr(obj, "__spec_class__", None):
+                return obj.__repr__(  # pylint: disable=unnecessary-dunder-call
+                    indent=indent, compact=compact_children
+                )
+""")
 elif name == "subclass_equal":
     rep("        if not isinstance(other, self.__class__):\n            return False", "        if not isinstance(other, self.__class__):\n            return NotImplemented")
 open(p, "w").write(s)
